@@ -79,7 +79,7 @@ def contractOf (j : Json) : Contract :=
 
 def interfaceOf (j : Json) : Interface :=
   { name := jstr (jget j "name"),
-    assoc := (jarr (jget j "assoc")).map fun a => { name := jstr (jget a "name"), bounds := jstr (jget a "bounds") },
+    assoc := (jarr (jget j "assoc")).map fun a => { name := jstr (jget a "name"), bounds := jstr (jget a "bounds"), tys := (jarr (jget a "tys")).map tyOf },
     customMsg := strOpt (jget j "custom_msg"), customQuery := strOpt (jget j "custom_query"),
     msgAttrs := msgAttrsOf (jget j "msg_attrs"),
     methods := (jarr (jget j "methods")).map methodOf }
